@@ -1972,6 +1972,11 @@ func (m *machine) lowerTailCall(si *ssa.Instruction) {
 	}
 
 	isAllRegs := stackSlotSize == 0
+	if !isDirectCall && int(calleeABI.ArgIntRealRegs) == len(intArgResultRegs) {
+		// The indirect jump goes through r11, which is also the last integer argument
+		// register: when it carries an argument, fall back to a regular call.
+		isAllRegs = false
+	}
 
 	switch {
 	case isDirectCall && isAllRegs:
